@@ -1071,7 +1071,11 @@ func (g *p2pRig) step() {
 		gap1 := time.Duration(t.Range(1, 14, "dban-gap1")) * D / 10
 		r.Logf("double-ban: clock +%v", gap1)
 		g.advance(gap1)
-		if c2 := fc[1]; !c2.dead && !c2.closed {
+		// variant: the second connection of the host does not offend - it simply stays, through the whole ban and
+		// beyond (only the offender is disconnected by a ban); afterwards the host returns with one connection after
+		// the other: the ones that stayed still count towards its limit
+		siblingStays := t.Chance(1, 2, "dban-sibling-stays")
+		if c2 := fc[1]; !siblingStays && !c2.dead && !c2.closed {
 			r.Logf("double-ban: %s offends", c2)
 			offend(c2)
 			r.Probe("second-offence-of-a-banned-host")
@@ -1083,6 +1087,22 @@ func (g *p2pRig) step() {
 		r.Logf("double-ban: connect %s", c3)
 		g.deliver(c3, 0)
 		g.afterDeliver(c3)
+		if siblingStays {
+			g.settle()
+			if c2 := fc[1]; !c2.dead && !c2.closed {
+				r.Probe("sibling-stayed-through-a-ban")
+			}
+			for k, nx := 0, t.Range(3, 6, "dban-returning-connections"); k < nx; k++ {
+				r.Step++
+				cx := g.connect(e.c.node)
+				r.Logf("double-ban: connect %s (the host returns, connection %d)", cx, k+2)
+				for j := 0; j < 4 && (j == 0 || cx.nodeEnd.PendingOut() > 0) && !cx.dead; j++ {
+					g.deliver(cx, 0)
+					g.afterDeliver(cx)
+					g.settle()
+				}
+			}
+		}
 	case "partition":
 		e.c.partitioned = !e.c.partitioned
 		r.Logf("%s partitioned=%v", e.c, e.c.partitioned)
